@@ -146,3 +146,103 @@ func init() {
 		})
 	}
 }
+
+// connctx (C17) — the context a handler is given belongs to its connection: once the connection has ended (the
+// client closed it, or sent something that is not a call, or the handler failed) that context is cancelled, so
+// whatever a handler tied to it ends too; while the connection lives and the serving context is live it is not.
+//
+//	connctx <ending> | <live while connected 0/1> <cancelled after the end 0/1>
+type ctxIface struct{ got chan context.Context }
+
+func (s *ctxIface) VarlinkGetName() string { return "org.example.ctx" }
+func (s *ctxIface) VarlinkGetDescription() string {
+	return "interface org.example.ctx\nmethod Keep() -> ()\nmethod Fail() -> ()\n"
+}
+func (s *ctxIface) VarlinkDispatch(ctx context.Context, c varlink.Call, method string) error {
+	select {
+	case s.got <- ctx:
+	default:
+	}
+	if method == "Fail" {
+		return fmt.Errorf("handler gives up")
+	}
+	return c.Reply(ctx, nil)
+}
+
+func init() {
+	commands["connctx"] = func(e *env) error {
+		return e.each(func(i int, g *Rng) error {
+			ctx := context.Background()
+			ending := []string{"client-close", "garbage", "handler-error", "client-abort"}[i%4]
+			iface := &ctxIface{got: make(chan context.Context, 4)}
+			svc, err := varlink.NewService("ctx", "p", "1", "u")
+			if err != nil {
+				return err
+			}
+			if err := svc.RegisterInterface(iface); err != nil {
+				return err
+			}
+			addr := fmt.Sprintf("unix:@verif-connctx-%d-%d-%d", e.seed, i, time.Now().UnixNano()%1000000)
+			if err := svc.Bind(ctx, addr); err != nil {
+				return err
+			}
+			done := make(chan error, 1)
+			go func() { done <- svc.DoListen(ctx, 0) }()
+			for t := 0; t < 3000; t++ {
+				if running, _, _, _ := svc.VerifState(); running {
+					break
+				}
+				time.Sleep(time.Millisecond)
+			}
+			conn, err := net.Dial("unix", addr[5:])
+			if err != nil {
+				return err
+			}
+			method := "Keep"
+			if ending == "handler-error" {
+				method = "Fail"
+			}
+			conn.Write([]byte(`{"method":"org.example.ctx.` + method + `"}` + "\x00"))
+			var hctx context.Context
+			select {
+			case hctx = <-iface.got:
+			case <-time.After(5 * time.Second):
+				return fmt.Errorf("handler not reached")
+			}
+			live := true
+			if ending != "handler-error" {
+				// the reply has arrived, the connection is idle: the context must still be live
+				buf := make([]byte, 256)
+				conn.SetReadDeadline(time.Now().Add(5 * time.Second))
+				conn.Read(buf)
+				time.Sleep(20 * time.Millisecond)
+				live = hctx.Err() == nil
+			}
+			switch ending {
+			case "client-close":
+				conn.Close()
+			case "client-abort":
+				conn.Write([]byte(`{"method":"org.example.ctx.Ke`))
+				conn.Close()
+			case "garbage":
+				conn.Write([]byte("}{\x00"))
+			}
+			cancelled := false
+			select {
+			case <-hctx.Done():
+				cancelled = true
+			case <-time.After(3 * time.Second):
+			}
+			conn.Close()
+			svc.Shutdown()
+			select {
+			case <-done:
+			case <-time.After(10 * time.Second):
+			}
+			l := &Line{}
+			l.S("connctx").S(ending).S("|").Bool(live).Bool(cancelled)
+			fmt.Fprintln(e.out, l.String())
+			return nil
+		})
+	}
+}
